@@ -341,7 +341,8 @@ gen(const char *script, const char *out)
                 free(buf);
             }
             if (parent >= 0) {
-                if (Vaddtagref(vgs[parent], DFTAG_NDG, SDidtoref(id)) == FAIL)
+                /* mtag=: the tag under which the object is made a member (any tag vgroup_insert accepts) */
+                if (Vaddtagref(vgs[parent], atoi(kv(nt, tok, "mtag", "720")), SDidtoref(id)) == FAIL)
                     DIE("Vaddtagref sds");
             }
             sds_open[nsds_open++] = id;
@@ -462,7 +463,7 @@ gen(const char *script, const char *out)
             if (GRwriteimage(id, start, NULL, dims, buf) == FAIL)
                 DIE("GRwriteimage");
             free(buf);
-            if (parent >= 0 && Vaddtagref(vgs[parent], DFTAG_RIG, GRidtoref(id)) == FAIL)
+            if (parent >= 0 && Vaddtagref(vgs[parent], atoi(kv(nt, tok, "mtag", "306")), GRidtoref(id)) == FAIL)
                 DIE("Vaddtagref gr");
             ri_open[nri_open++] = id;
             lastk               = K_GR;
@@ -1013,7 +1014,7 @@ dump_vg(int32 ref, int depth, int guard)
             else
                 printf("N %d dangling-sds %d\n", depth + 1, (int)r);
         }
-        else if (t == DFTAG_RIG || t == DFTAG_RI || t == DFTAG_CI || t == DFTAG_RI8 || t == DFTAG_CI8) {
+        else if (t == DFTAG_RIG || t == DFTAG_RI || t == DFTAG_CI || t == DFTAG_RI8 || t == DFTAG_CI8 || t == DFTAG_II8) {
             int32 idx = GRreftoindex(d_gr, (uint16)r);
             mark(DFTAG_RIG, r);
             if (idx != FAIL)
